@@ -2,10 +2,11 @@
 import random
 from lib import common
 from checks import pfcp_common as pc
+from checks import timer_phase
 
 MANIFEST = dict(
     text='Kernel-checked: a request whose (source, sequence) is in the receive-transaction table leaves the ENTIRE state identical and is answered with the cached datagram (or not at all if none was produced) - for every message and state; keys compare exactly; the retention expiry releases the entry. Tie: differential run incl. duplicates from several peers using equal sequence numbers and injected retention expiries; monitor checks no driver call / no state change / byte-identical re-sent datagram on the real server.',
-    note="Transaction keys are modelled as (peer, sequence) pairs; the string keys fmt.Sprintf(format, addr, seq) at the sites regenerated from the source are proved injective for ANY address string and sequence number (C06_string_key_injective), and the rendering model is compared with the keys the real constructors build (IPv4/IPv6/zone addresses, sequence extremes). Timers are injected events. ",
+    note="Transaction keys are modelled as (peer, sequence) pairs; the string keys fmt.Sprintf(format, addr, seq) at the sites regenerated from the source are proved injective for ANY address string and sequence number (C06_string_key_injective), and the rendering model is compared with the keys the real constructors build (IPv4/IPv6/zone addresses, sequence extremes). In the differential run timers are injected events; a separate real-timer phase (retention windows of 150-800 ms, duplicates inside the window, re-use of a sequence number after it, duplicates of the re-use) runs the real AfterFunc callbacks and checks the property on the time-stamped trace. ",
     technique='Coq step lemmas (duplicate = identity on the state) + differential run + byte-equality monitor',
     design='4/C06')
 
@@ -77,6 +78,11 @@ Definition kmism := Eval vm_compute in bad_idx key_agrees kcases 0.
                        "case": cases[i], "result": res[i]}, no_input=True)
 
 
+def both_phases(ctx, info, coverage):
+    txkey_phase(ctx, info, coverage)
+    timer_phase.phase("C06", timer_phase.mon_c06_timed)(ctx, info, coverage)
+
+
 def run(ctx, replay=None):
     return pc.run_property(ctx, "C06", pc.mon_c06, GEN, N_QUICK, N_THOROUGH, replay=replay, rule=RULE,
-                           assumptions=[pc.PFCP_NOTE], extra_phase=txkey_phase)
+                           assumptions=[pc.PFCP_NOTE], extra_phase=both_phases)
